@@ -13,6 +13,7 @@ wt, prop = sys.argv[1], sys.argv[2]
 sid = sys.argv[3] if len(sys.argv) > 3 else prop
 extra = sys.argv[4:]
 V = '/verif'
+VRUN = os.environ.get('SEED_EVAL_VERIF', V)   # where the checks are run (a second checkout of /verif with its own build, so that evaluation does not disturb work in /verif)
 out = os.path.join(V, 'seeded', sid)
 os.makedirs(out, exist_ok=True)
 
@@ -46,7 +47,7 @@ res['confirmed'] = ('129 passed' in res['tests_with_change']) and rcw != 0 and r
 checks = {}
 for p in [prop] + extra:
     t0 = time.time()
-    rc, o = sh('bin/check %s --tier quick' % p, env={'VERIF_REPO': wt}, cwd=V)
+    rc, o = sh('bin/check %s --tier quick' % p, env={'VERIF_REPO': wt}, cwd=VRUN)
     lines = [l for l in o.split('\n') if l.startswith('VIOLATION') or l.startswith('  violation') or l.startswith('  broken')]
     checks[p] = {'exit': rc, 'wall_s': round(time.time() - t0, 1), 'lines': [l[:300] for l in lines[:6]]}
 res['checks_quick'] = checks
